@@ -433,7 +433,12 @@ func (s unicodeString) Equals(other Value) bool {
 		return true
 	}
 
-	if o, ok := other.(*Object); ok {
+	switch o := other.(type) {
+	case valueInt, valueFloat:
+		return s.ToNumber().StrictEquals(o)
+	case valueBool:
+		return s.ToNumber().StrictEquals(o.ToNumber())
+	case *Object:
 		return s.Equals(o.toPrimitive())
 	}
 	return false
